@@ -121,7 +121,7 @@ def rq_operator_names(text, with_arity=False):
 
 
 # input predicates of the OPEN findings only (the predicates of fixed findings were removed with the fix: nothing can
-# be classified as F7 F15 F29 N1 N2 N5 N6 N7 N8 N9 N10 N11 N12 N13 N14 N15 F9 H1 H2 any more)
+# be classified as F7 F15 F29 N1 N2 N5 N6 N7 N8 N9 N10 N11 N12 N13 N14 N15 N17 F9 H1 H2 any more)
 PRED = {
     # C12-N3 as a precondition (c12_rq_lookups_total_under_wf): a structurally mutated RQ that does NOT satisfy rq_wf
     "mutated-rq-json": lambda c: (c["entry"] == "json_rq" and c.get("family", "").startswith("json:") and c.get("family") not in ("json:orig", "json:int:lit")
@@ -132,8 +132,6 @@ PRED = {
         or any(n in OP_ARITIES and k not in OP_ARITIES[n] for n, k in rq_operator_names(c["src"], with_arity=True))),
     # C12-N18: an Aggregate that partitions by one of the columns it aggregates (cyclic)
     "rq-aggregate-partition-cycle": lambda c: c["entry"] == "json_rq" and rq_aggregate_cycle(c["src"]),
-    # C12-N17: a table reference with a nameless column
-    "rq-nameless-tableref-column": lambda c: c["entry"] == "json_rq" and re.search(r'\[\s*\{\s*"Single"\s*:\s*null\s*\}\s*,\s*\d+\s*\]', c["src"]) is not None,
     "mutated-pl-json": lambda c: c["entry"] == "json_pl" and c.get("family", "").startswith("json:") and c.get("family") not in ("json:orig", "json:int:lit"),
     "deep-or-long": lambda c: True,   # refined by thresholds below
     # C12-H3: at least 10 named arguments whose value opens a parenthesis (`x:(`), nested
